@@ -174,6 +174,9 @@ type c12Restart struct {
 	StartupEffects int `json:"startup_effects"`
 	// BigRevoked: how many of the 1097 further serials of the 1100-entry list are answered "revoked" (asked only where the location counts as loaded)
 	BigRevoked int `json:"big_revoked"`
+	// Vector2: the verdicts after the origin came back with list v3 and one refresh + handshake took place (second phase
+	// of the restart): whatever the crashed run left, the next accepted load puts exactly that list in force
+	Vector2 string `json:"vector_after_next_load"`
 	// Busy: the work_dir was provisioned while the other instance of the process was in the middle of a CRL update
 	Busy bool `json:"busy"`
 }
@@ -258,7 +261,8 @@ func c12RestartChild(dir string, dieAt int, busy bool) int {
 			out = append(out, w.Lookup(pr, world.Chain(pr, c.p.CA, c.p.Root)).String())
 		}
 		r.Vector = strings.Join(out, ",")
-		if !strings.Contains(r.Vector, "ERR") {
+		bigAsked := !strings.Contains(r.Vector, "ERR")
+		if bigAsked {
 			for i := 0; i < c12BigExtra; i++ {
 				pr := world.Leaf(c.p.CA, bi(c12BigBase+int64(i)), []string{urlA}, nil)
 				if w.Lookup(pr, world.Chain(pr, c.p.CA, c.p.Root)).Revoked {
@@ -266,6 +270,17 @@ func c12RestartChild(dir string, dieAt int, busy bool) int {
 				}
 			}
 		}
+		// second phase: the origin is back and serves list v3
+		w.Net.Serve(urlA, "v3", c.v["v3"])
+		w.Lookup(c.probes[0], world.Chain(c.probes[0], c.p.CA, c.p.Root))
+		vsched.Drain()
+		w.Chk.VerifUpdateCRLs(true)
+		vsched.Drain()
+		out = nil
+		for _, pr := range c.probes {
+			out = append(out, w.Lookup(pr, world.Chain(pr, c.p.CA, c.p.Root)).String())
+		}
+		r.Vector2 = strings.Join(out, ",")
 		w.Chk.Cleanup()
 	})
 	if res.Verdict != vsched.OK {
@@ -319,9 +334,23 @@ func RunC12(tier string, args []string) int {
 	}
 	var jobs []job
 	points := map[string]int{}
+	completed := map[string]c12Restart{}
 	for _, h := range hists {
 		dir := FreshDir("c12n")
 		out, err := c12Exec("child", h, dir, "0")
+		// the run which went through the whole history and then stopped (no crash inside an operation): a restart finds
+		// exactly the list the history accepted last
+		if err == nil {
+			if rout, rerr := c12Exec("restart", dir); rerr == nil {
+				for _, l := range strings.Split(rout, "\n") {
+					if strings.HasPrefix(l, "RESTART ") {
+						var r c12Restart
+						json.Unmarshal([]byte(strings.TrimPrefix(l, "RESTART ")), &r)
+						completed[h] = r
+					}
+				}
+			}
+		}
 		os.RemoveAll(dir)
 		n := 0
 		for _, l := range strings.Split(out, "\n") {
@@ -534,6 +563,10 @@ func RunC12(tier string, args []string) int {
 			chk.Violation("C12|loaded-data-not-a-complete-accepted-crl|"+j.hist,
 				fmt.Sprintf("after a crash at effect point %d of history %s the restarted validator treats the location as loaded, but only %d of the list's %d further entries are answered 'revoked'", j.k, j.hist, r.BigRevoked, c12BigExtra), rep)
 		}
+		if r.Vector2 != c.vector("v3") {
+			chk.Violation("C12|next-accepted-load-is-not-what-is-in-force|"+j.hist,
+				fmt.Sprintf("crash at effect point %d of history %s, restart, then the origin serves list v3 and a handshake and a refresh take place: verdicts [%s] for serials %v, list v3 means [%s]", j.k, j.hist, r.Vector2, c12Serials, c.vector("v3")), rep)
+		}
 		if len(r.OtherAfter) > 0 {
 			chk.Violation("C12|stray-entries-survive-startup|"+j.hist, fmt.Sprintf("crash at point %d of %s: work_dir entries %v (neither a store directory nor matched by the startup sweep) remain after Provision", j.k, j.hist, r.OtherAfter), rep)
 		}
@@ -552,6 +585,31 @@ func RunC12(tier string, args []string) int {
 			}
 		}
 	}
+	// histories which ran to their end
+	final := map[string]string{"first-load-accepted": "v1", "first-load-accepted-1100-entries": "vbig", "first-load-rejected": "", "first-load-truncated": "", "refresh-accepted": "v2",
+		"refresh-rejected": "v1", "refresh-fetch-failure": "v1", "two-refreshes": "v3", "refresh-rejected-then-accepted": "v3", "second-location": "v2"}
+	completedN := 0
+	for _, h := range hists {
+		r, ok := completed[h]
+		if !ok {
+			chk.Violation("C12|harness|completed-run", "no restart result for the completed run of "+h, nil)
+			continue
+		}
+		completedN++
+		want := allERR
+		if final[h] != "" {
+			want = c.vector(final[h])
+		}
+		outcomes.Add(h + "+completed => " + r.Vector)
+		switch {
+		case r.Panic != "" || r.ProvisionErr != "":
+			chk.Violation("C12|restart-after-completed-history|"+h, fmt.Sprintf("restart after history %s ran to its end: %s %s", h, r.Panic, r.ProvisionErr), nil)
+		case r.Vector != want:
+			chk.Violation("C12|restart-after-completed-history-loses-the-last-accepted-list|"+h, fmt.Sprintf("history %s ran to its end, the process stopped and was started again (origin down, crl_cdp_strict on): verdicts [%s] for serials %v, the list accepted last means [%s]", h, r.Vector, c12Serials, want), nil)
+		case r.Vector2 != c.vector("v3"):
+			chk.Violation("C12|next-accepted-load-is-not-what-is-in-force|"+h+"+completed", fmt.Sprintf("after the restart the origin serves v3: verdicts [%s], v3 means [%s]", r.Vector2, c.vector("v3")), nil)
+		}
+	}
 	var ps []string
 	for h, n := range points {
 		ps = append(ps, fmt.Sprintf("%s:%d", h, n))
@@ -562,6 +620,7 @@ func RunC12(tier string, args []string) int {
 		"single_crash_evaluations":               len(results) - double - busyRuns,
 		"restart_while_other_instance_updates":   busyRuns,
 		"double_crash_evaluations":               double,
+		"restarts_after_completed_histories":     completedN,
 		"crash_points_beyond_the_end_of_the_run": beyondEnd,
 		"distinct_nontrivial":                    nontrivial,
 		"rule":                                   "one evaluation per (history, crash point) and, where the second level is on, per (history, crash point, startup effect point of the restart at which the restarting process dies too); crash points are all effect points of the history; non-trivial = the restarted validator treats the location as loaded (so the on-disk data is actually consulted)",
